@@ -3,7 +3,7 @@
 -/
 import FcProofs.Lemmas.Cli
 import FcModel.Spec.C20
-namespace Fc.Cli
+namespace Fc.C04
 open Fc
 
 /-! ### the tables of `_junit.py` (re-checked against the regenerated source tables) -/
@@ -218,4 +218,4 @@ theorem missingSource_skipped (o : Opts) : parseStatus o.ignSrc o.ignRef .missin
 theorem missingReference_skipped (o : Opts) : parseStatus o.ignSrc o.ignRef .missingReference = .skipped ↔ o.ignRef = true := by
   cases o.ignRef <;> simp [parseStatus]
 
-end Fc.Cli
+end Fc.C04
